@@ -8,6 +8,13 @@ COMMON_TB = [
 FLOAT_TB = "IEEE-754 rounding: theorems are over exact rationals; the f64 instance of the same definitions is compared bit-for-bit with the Rust results on the generated cases"
 CONSTS = {"script": "gen_consts.py"}
 
+CHARTABLE = {"harness": ["chartable", "{LEAN}/CookModel/Gen/CharTable.lean"]}
+SYNTAX_TB = [
+    "the character-class table (Gen/CharTable.lean) is produced on every run by the real lexer (cfg(cooklang_verif) token hook) and std's char predicates over all 1,112,064 scalar values; the theorems hold for every CharSpec",
+    "modelled, not verified: finl_unicode / std Unicode tables (through the generated table), codesnake's renderer (only exercised: SourceReport::write is run on every report)",
+    "translators/gen_consts.py (extension and modifier flag values from src/lib.rs, src/parser/model.rs)",
+]
+
 PROPS = {
     "C12": {
         "gen": [CONSTS],
@@ -16,5 +23,10 @@ PROPS = {
             "modelled, not verified: std f64 trunc/round/fract/as-casts (Lean Float ops are assumed to be the same IEEE operations)"],
         "assumptions": ["theorems hold for every structurally well-formed lookup table; that the table built with f64 arithmetic equals the one built exactly is checked at run time by the driver, not proved",
                         "accuracy in [0,1] and max_den <= 64 (the documented preconditions; callers are checked under C03/C16)"],
+    },
+    "C04": {
+        "gen": [CONSTS, CHARTABLE],
+        "trusted_base": COMMON_TB + SYNTAX_TB,
+        "assumptions": ["theorems cover the lexer (tiling, boundaries) and text assembly (fragment faithfulness, order) for every input; the span arithmetic of the individual block parsers and of the analysis labels is covered by the correspondence run (every span of every event/diagnostic compared with the model) and by the oracle on the implementation, not by a theorem yet"],
     },
 }
